@@ -1992,6 +1992,10 @@ static void InternSymbol_78K3(char* pAsc, TempResult* pErg) {
     }
 }
 
+static void InitCode_78K3(void) {
+    Reg_RSS = 0;
+}
+
 static void SwitchFrom_78K3(void) {
     DeinitFields();
 }
@@ -2032,4 +2036,5 @@ static void SwitchTo_78K3(void) {
 
 void code78k3_init(void) {
     CPU78310 = AddCPU("78310", SwitchTo_78K3);
+    AddInitPassProc(InitCode_78K3);
 }
